@@ -688,12 +688,12 @@ def rule_inner_gates(chk: Check, view: AsyncView, rid: str):
         if key.count(".") != 1 or view.cls_of.get(key) != "conn":
             continue
         fq = view.fi(key).qualname
-        rets = [e for e in r.events if e.kind == "return" and e.func == fq and e.term == T.NONE and e.guard != T.TRUE and mentions(e.guard, "self._state")
-                and all(a == STATE or mentions(a, "self._state") for a in flow.bool_atoms(e.guard, []))]
+        # (the test may sit in a helper together with the episode filter: what matters is in which states the function can go on)
+        rets = [e for e in r.events if e.kind == "return" and e.func == fq and e.term == T.NONE and e.guard != T.TRUE and mentions(e.guard, "self._state")]
         if not rets:
             continue
         first = min(rets, key=lambda e: e.idx)
-        if any(e.kind in ("call", "store_attr") and e.idx < first.idx and e.func == fq and not e.name.endswith(".log") for e in r.events):
+        if any(e.kind == "store_attr" and e.idx < first.idx and e.func == fq for e in r.events):
             continue  # (not a gate at the top of the function)
         n += 1
         goes_on = state_set(T.mk_not(first.guard), {})
